@@ -53,6 +53,7 @@ def gen_refine(rng):
     case["span"] = rng.choice([2.0, 4.0, 8.0])
     case["hpolicy"] = rng.choice(["fixed", "on_event", "before_event", "after_event", "at_tmin"])
     case["hpick"] = rng.random()
+    case["sis_unfiltered"] = rng.random() < 0.5
     return case
 
 
@@ -67,7 +68,7 @@ def ref_run(case, labels, tmax):
 
     def dl(u, v, k):
         d = tabs.sis_duration_k(u, k)
-        return [x for x in tabs.sis_delays_k(u, v, k) if x < d]
+        return [x for x in tabs.sis_delays_k(u, v, k) if case.get("sis_unfiltered") or x < d]
     return plain_sis(n, nbrs, dur, dl, case["I0"], case["tmin"], tmax)
 
 
@@ -247,6 +248,8 @@ def run_one(family, rng, idx, tier):
         case = gen_refine(rng)
         v, info = one_refine(case)
         stats = {"evaluations": 1, "horizon_%s" % case["hpolicy"]: 1, "reference_events": info.get("events", 0)}
+        if case["sis_unfiltered"]:
+            stats["fault_F2_attempts_after_source_recovery"] = 1
         if case["hpolicy"] != "fixed":
             stats["fault_F3_horizon_cut"] = 1
         if info["skip"]:
